@@ -309,10 +309,12 @@ def shape_of(q):
     return ([len(b["keys"]) for b in q["bundles"]], len({k["pub"] for b in q["bundles"] for k in b["keys"]}))
 
 
-def verdict_case(kind, ksr_xml, prev_doc, n_ksr, n_prev, with_prev=True, extra_policy=None, strict=True, shape=None, expect=None):
+def verdict_case(kind, ksr_xml, prev_doc, n_ksr, n_prev, with_prev=True, extra_policy=None, strict=True, shape=None, expect=None, zone=None):
+    tz, suffix = zone or (None, ksrxml.TS_SUFFIX)       # the receiver host's time zone and the notation of the KSR's timestamps (every notation means UTC)
     if isinstance(ksr_xml, dict):
         shape = shape or shape_of(ksr_xml)
-        ksr_xml = ksrxml.render_ksr(ksr_xml).encode()
+        with ksrxml.process_zone(None, suffix):
+            ksr_xml = ksrxml.render_ksr(ksr_xml).encode()
     cfgpath = write_config(n_ksr, n_prev, with_prev, extra_policy, shape)
     if prev_doc is not None:
         (VD / "prev.xml").write_text(prev_doc)
@@ -321,7 +323,8 @@ def verdict_case(kind, ksr_xml, prev_doc, n_ksr, n_prev, with_prev=True, extra_p
     kpath = VD / "upload_20260301.xml"
     kpath.write_bytes(ksr_xml)
     app = types.SimpleNamespace(config=types.SimpleNamespace(ksr=types.SimpleNamespace(ksrsigner_configfile=cfgpath)))
-    r = vlib.run_impl(server.validate_ksr, app, kpath)
+    with ksrxml.process_zone(tz, ksrxml.TS_SUFFIX):
+        r = vlib.run_impl(server.validate_ksr, app, kpath)
     # ---- the signer's own judgement, called directly
     cfg_r = vlib.run_impl(get_config, cfgpath)
     if cfg_r[0] != "ok":
@@ -462,6 +465,11 @@ for rnd in range(3 if not THOROUGH else 12):
     verdict_case("replayed-request-id-no-previous", enc(successor(skr, zskpol, n=n, rid=skr["id"])), None, n, n_prev, with_prev=False)
     for ov in (D(days=8, hours=23), D(days=9), D(days=12), D(days=12, seconds=1)):
         verdict_case("chain-overlap", enc(successor(skr, zskpol, n=n, overlap=ov)), sdoc, n, n_prev)
+    # the receiver may run on a host in any time zone; the KSR's timestamps are UTC however they are written
+    for tz_, sfx in (("JST-9", ""), ("PST8", ""), ("PST8", "Z"), ("IST-5:30", "+00:00"), ("UTC", "")):
+        for ov in (D(days=8, hours=16), D(days=9), D(days=9, hours=6), D(days=11, hours=18), D(days=12), D(days=12, hours=8)):
+            verdict_case("chain-overlap-zone-" + tz_, enc(successor(skr, zskpol, n=n, overlap=ov, rid=f"z-{rnd}-{tz_}-{ov.total_seconds():.0f}")), sdoc, n, n_prev,
+                         expect="OK" if zskpol["min_overlap"] <= ov <= zskpol["max_overlap"] else "not-OK", zone=(tz_, sfx))
     verdict_case("chain-keys-disjoint", enc(successor(skr, zskpol, n=n, first_keys=[ZSKS[3]])), sdoc, n, n_prev)
     verdict_case("chain-keys-subset", enc(successor(skr, zskpol, n=n, first_keys=pub[:1])), sdoc, n, n_prev)
     # other key material under the identifiers the previous SKR published (tag, proof of possession and all in order): not the published keys
